@@ -1,24 +1,24 @@
 #!/bin/bash
+# usage: confirm_mutants.sh <src-dir> <agent-worktree-prefix> <out-dir>
 # Confirms each delivered mutant in a scratch worktree: (a) clean tree + demo passes, (b) mutant builds and passes the
-# unedited suite, (c) mutant + demo fails. Writes /tmp/mut/confirm/<id>-<n>.txt
+# unedited suite, (c) mutant + demo fails. Writes <out-dir>/<id>-<n>.txt and prints one RESULT line each.
 export GOFLAGS=-mod=mod GOPROXY=off GOSUMDB=off GOTOOLCHAIN=local
-src=${1:-/tmp/mut/out}
-mkdir -p /tmp/mut/confirm
-wt=/tmp/mut/confirm-wt
+src=${1:-/tmp/mut/out}; prefix=${2:-/tmp/mut}; outd=${3:-/tmp/mut/confirm}
+mkdir -p $outd
+wt=$outd-wt
 git -C /repo worktree remove --force $wt 2>/dev/null
 git -C /repo worktree add -q $wt HEAD || exit 2
 for d in $src/C*/[0-9]*; do
   [ -f $d/patch.diff ] && [ -f $d/meta.json ] || continue
-  id=$(basename $(dirname $d)); n=$(basename $d); out=/tmp/mut/confirm/$id-$n.txt
+  id=$(basename $(dirname $d)); n=$(basename $d); out=$outd/$id-$n.txt
   [ -f $out ] && grep -q "^RESULT" $out && continue
-  ddir=$(python3 -c "import json;print(json.load(open('$d/meta.json')).get('demo_dir','').strip('/').replace('/tmp/mut/$id/',''))")
-  dcmd=$(python3 -c "import json;print(json.load(open('$d/meta.json')).get('demo_cmd',''))")
+  ddir=$(PFX="$prefix/$id/" python3 -c "import json,os;print(json.load(open('$d/meta.json')).get('demo_dir','').replace(os.environ['PFX'],'').strip('/'))")
   (
   cd $wt && git checkout -q -- . && git clean -fdq
   demo=$(ls $d/demo*_test.go $d/demo*.go 2>/dev/null | head -1)
-  echo "mutant $id/$n demo_dir=$ddir demo_cmd=$dcmd"
+  echo "mutant $id/$n demo_dir=$ddir"
   cp $demo $wt/$ddir/zz_demo_test.go
-  run_demo() { (cd $wt && timeout 300 go test -count=1 ./$ddir/ 2>&1 | tail -5); }
+  run_demo() { (cd $wt && timeout 600 go test -count=1 ./$ddir/ 2>&1 | tail -5); }
   echo "--- clean + demo"; a=$(run_demo); echo "$a"
   rm $wt/$ddir/zz_demo_test.go
   git apply $d/patch.diff || echo "APPLY FAILED"
